@@ -1,0 +1,60 @@
+//go:build verif
+
+// Contracts for package ng_operand, read by /verif/govc (see
+// internal/codegen/verif_contracts.go for the conventions). Not part of a normal build.
+
+package ng_operand
+
+func forall(lo, hi int, p func(k int) bool) bool {
+	for k := lo; k < hi; k++ {
+		if !p(k) {
+			return false
+		}
+	}
+	return true
+}
+
+func exists(lo, hi int, p func(k int) bool) bool {
+	for k := lo; k < hi; k++ {
+		if p(k) {
+			return true
+		}
+	}
+	return false
+}
+
+func old[T any](x T) T { return x }
+
+// specIsImmType: the operand classes that carry an immediate value.
+func specIsImmType(t OperandType) bool {
+	return t == CodeIMM || t == CodeIMM8 || t == CodeIMM16 || t == CodeIMM32 || t == CodeIMM64
+}
+
+// specFirstImm: index of the first immediate operand, -1 if there is none
+// (at most three explicit operands, assumption A6).
+func specFirstImm(o *OperandPegImpl) int {
+	ps := o.parsedOperands
+	switch {
+	case len(ps) > 0 && ps[0] != nil && specIsImmType(ps[0].Type):
+		return 0
+	case len(ps) > 1 && ps[1] != nil && specIsImmType(ps[1].Type):
+		return 1
+	case len(ps) > 2 && ps[2] != nil && specIsImmType(ps[2].Type):
+		return 2
+	}
+	return -1
+}
+
+//@ func (*OperandPegImpl).ImmediateValueFitsInSigned8Bits
+//@ props C18
+//@ option pure
+//@ requires o != nil
+//@ requires[A6] len(o.parsedOperands) <= 3
+//@ ensures[range] result0 == (specFirstImm(o) >= 0 && -128 <= o.parsedOperands[specFirstImm(o)].Immediate && o.parsedOperands[specFirstImm(o)].Immediate <= 127)
+
+//@ func getImmediateSizeType
+//@ props C18 C01
+//@ ensures[imm8]  (result0 == CodeIMM8) == (-128 <= value && value <= 127)
+//@ ensures[imm16] (result0 == CodeIMM16) == (!(-128 <= value && value <= 127) && -32768 <= value && value <= 32767)
+//@ ensures[imm32] (result0 == CodeIMM32) == (!(-32768 <= value && value <= 32767) && -2147483648 <= value && value <= 2147483647)
+//@ ensures[dom]   result0 == CodeIMM8 || result0 == CodeIMM16 || result0 == CodeIMM32 || result0 == CodeIMM64
